@@ -252,57 +252,62 @@ def ref_labels(buf: bytes, off: int):
         labels.append(bytes(buf[i + 1:i + 1 + sz])); i += 1 + sz
 
 
-def ref_name(buf: bytes, off: int):
+def ref_name(buf: bytes, off: int, info=None):
     """(labels, size at off); a pointer must point before the start of the name that contains it"""
-    out, size, cur = [], None, off
+    out, size, cur, hops = [], None, off, 0
     while True:
         labels, n, ptr = ref_labels(buf, cur)
         out += labels
         if size is None: size = n
-        if ptr is None: return out, size
+        if ptr is None: break
         if not ptr < cur: raise RefError("forward pointer")
-        cur = ptr
+        cur = ptr; hops += 1
+    if info is not None:
+        info["labels"] += out; info["hops"] = max(info["hops"], hops)
+    return out, size
 
 
-def ref_rdata(buf: bytes, off: int, ln: int, ty: int) -> bytes:
+def ref_rdata(buf: bytes, off: int, ln: int, ty: int, info=None) -> bytes:
     """canonical record data: names expanded by the RFC layout of the type, everything else byte for byte"""
     if ty not in RFC_LAYOUT: return bytes(buf[off:off + ln])
     out, pos, end = b"", off, off + ln
     for f in RFC_LAYOUT[ty]:
         if f == "N":
-            labels, n = ref_name(buf, pos)
+            labels, n = ref_name(buf, pos, info)
             if pos + n > end: raise RefError("name exceeds record data")
             out += wire_name(labels); pos += n
         else:
             if f == "S":
-                if pos >= end: raise RefError("truncated character-string")
+                if pos >= len(buf): raise RefError("truncated character-string")
                 k = 1 + buf[pos]
             else:
                 k = _FIXED[f]
             if pos + k > end: raise RefError("truncated field")
             out += bytes(buf[pos:pos + k]); pos += k
-    return out + bytes(buf[pos:end])
+    out += bytes(buf[pos:end])
+    if info is not None: info["rdata"] = max(info["rdata"], len(out))
+    return out
 
 
-def ref_decode(buf: bytes):
+def ref_decode(buf: bytes, info=None):
     """-> canonical string (== Driver/C26.lean showRef) ; raises RefError"""
     if len(buf) < 12: raise RefError("short header")
     id_, flags, nq, nan, nns, nar = struct.unpack_from("!HHHHHH", buf, 0)
     pos = 12
     qs, rrs = [], []
     for _ in range(nq):
-        labels, n = ref_name(buf, pos); pos += n
+        labels, n = ref_name(buf, pos, info); pos += n
         if pos + 4 > len(buf): raise RefError("truncated question")
         t, cl = struct.unpack_from("!HH", buf, pos); pos += 4
         qs.append(f"{hx(wire_name(labels))}:{t}:{cl}")
     for cnt in (nan, nns, nar):
         sec = []
         for _ in range(cnt):
-            labels, n = ref_name(buf, pos); pos += n
+            labels, n = ref_name(buf, pos, info); pos += n
             if pos + 10 > len(buf): raise RefError("truncated record")
             t, cl, ttl, ln = struct.unpack_from("!HHIH", buf, pos); pos += 10
             if pos + ln > len(buf): raise RefError("truncated record data")
-            sec.append(f"{hx(wire_name(labels))}:{t}:{cl}:{ttl}:{hx(ref_rdata(buf, pos, ln, t))}")
+            sec.append(f"{hx(wire_name(labels))}:{t}:{cl}:{ttl}:{hx(ref_rdata(buf, pos, ln, t, info))}")
             pos += ln
         rrs.append(";".join(sec) or "-")
     if pos != len(buf): raise RefError("trailing bytes")
@@ -314,3 +319,18 @@ def ref_view(buf: bytes) -> str:
         return "ok " + ref_decode(buf)
     except RefError:
         return "err"
+
+
+import re
+_HOSTLABEL = re.compile(rb"^[A-Za-z0-9_-]{1,63}$")
+
+
+def deliverable(buf: bytes) -> bool:
+    """a message the proxy has no reason not to forward: the specification decoder reads it, every label is a plain
+    host-name label (no ACE prefix: those depend on the idna codec), pointer nesting and expanded data are in bounds"""
+    info = {"labels": [], "hops": 0, "rdata": 0}
+    try:
+        ref_decode(buf, info)
+    except RefError:
+        return False
+    return (all(_HOSTLABEL.match(l) and ACE not in l for l in info["labels"]) and info["hops"] <= 100 and info["rdata"] <= 65535)
